@@ -166,7 +166,7 @@ func (k *Kauri) onWaitTimerExpired(event WaitTimerExpiredEvent) {
 	if k.currentView != event.currentView {
 		return
 	}
-	if !k.aggSent {
+	if !k.aggSent && k.aggContrib != nil {
 		k.sender.SendContributionToParent(k.currentView, k.aggContrib)
 		k.reset()
 	}
